@@ -522,8 +522,11 @@ class Gen:
             keys = []
             if not force_global_agg and r.chance(80):
                 nk = 1 + r.below(2)
-                for c in r.shuffle(scope.cols)[:nk]:
-                    keys.append(c)
+                for c in r.shuffle(scope.cols):
+                    # distinct columns only: the merged column of a USING join is the same column as one side's
+                    # (ROLLUP (a, a) keeps a in the grouping set {a} for both positions)
+                    if len(keys) < nk and all(k.idx != c.idx for k in keys):
+                        keys.append(c)
             aggs = []  # (sql, sx, ty)
 
             def mk_agg(ty_want=None):
